@@ -3,6 +3,7 @@ package gossipsim
 import (
 	"fmt"
 	"image/color"
+	"os"
 	"regexp"
 	"runtime/debug"
 	"strings"
@@ -250,7 +251,7 @@ func (s *Sim) buildUniverse() *SimChain {
 	}
 	s.u = u
 	for _, c := range u.chans {
-		r.Logf("universe: chan %d scid=%s %s-%s cap=%d funding=%s", c.idx, scidStr(c.scid.ToUint64()),
+		logf(r, "universe: chan %d scid=%s %s-%s cap=%d funding=%s", c.idx, scidStr(c.scid.ToUint64()),
 			short(c.n[0].pub[:]), short(c.n[1].pub[:]), c.capacity, fundNames[c.kind])
 	}
 	return chain
@@ -266,7 +267,7 @@ func (s *Sim) run() {
 	chain := s.buildUniverse()
 	self := newNode(100)
 	s.w = NewWorld(r, chain, self, s.cfg.Peers, s.cfg.SyncPeers)
-	r.Logf("config: %+v", s.cfg)
+	logf(r, "config: %+v", s.cfg)
 	s.proj = s.w.readProjection()
 	s.w.drain()
 
@@ -325,13 +326,13 @@ func (s *Sim) run() {
 		case "time":
 			d := []time.Duration{time.Second, 61 * time.Second, 11 * time.Minute, 25 * time.Hour, 15 * 24 * time.Hour}[r.Draw(5)]
 			r.Kind("time:" + d.String())
-			r.Logf("#%d clock +%v", s.step, d)
+			logf(r, "#%d clock +%v", s.step, d)
 			time.Sleep(d)
 			s.w.settle()
 			what = "after advancing the clock by " + d.String()
 		case "trickle":
 			r.Kind("trickle")
-			r.Logf("#%d trickle interval passes", s.step)
+			logf(r, "#%d trickle interval passes", s.step)
 			time.Sleep(trickleDelay)
 			s.w.settle()
 			what = "after a trickle interval"
@@ -377,7 +378,7 @@ func (s *Sim) mine() string {
 	}
 	r.Kind("block")
 	h := s.w.chain.MineBlock(extra...)
-	r.Logf("#%d block %d mined: %s", s.step, h, label)
+	logf(r, "#%d block %d mined: %s", s.step, h, label)
 	s.w.settle()
 	return fmt.Sprintf("after block %d (%s)", h, label)
 }
@@ -401,7 +402,7 @@ func (s *Sim) applyFilter() string {
 	if r.Draw(3) == 2 {
 		first = uint32(time.Now().Unix())
 	}
-	r.Logf("#%d %s sets gossip_timestamp_range first=%d", s.step, p.name, first)
+	logf(r, "#%d %s sets gossip_timestamp_range first=%d", s.step, p.name, first)
 	s.w.gsp.ProcessRemoteAnnouncement(s.w.ctx, &lnwire.GossipTimestampRange{
 		ChainHash: s.u.chainHash, FirstTimestamp: first, TimestampRange: 0xffffffff,
 	}, p)
@@ -424,7 +425,7 @@ func (s *Sim) send(w []byte, label string) *pending {
 	if err != nil {
 		// The transport layer would drop the connection; the gossiper
 		// never sees the message.
-		r.Logf("#%d [%s] does not decode (%s): not delivered", s.step, label, cleanErr(err))
+		logf(r, "#%d [%s] does not decode (%s): not delivered", s.step, label, cleanErr(err))
 		r.Count("undecodable")
 		return nil
 	}
@@ -435,12 +436,12 @@ func (s *Sim) send(w []byte, label string) *pending {
 		}
 	}
 	if len(cands) == 0 {
-		r.Logf("#%d every peer has been disconnected: [%s] not delivered", s.step, label)
+		logf(r, "#%d every peer has been disconnected: [%s] not delivered", s.step, label)
 		return nil
 	}
 	p := cands[r.Draw(len(cands))]
 	s.remember(w, label)
-	r.Logf("#%d %s delivers [%s]", s.step, p.name, label)
+	logf(r, "#%d %s delivers [%s]", s.step, p.name, label)
 	r.Count("delivered")
 	return &pending{d: s.w.Deliver(p, msg), label: label, peer: p.name}
 }
@@ -450,7 +451,7 @@ func (s *Sim) report(p *pending) {
 	done, err := p.d.done, p.d.err
 	p.d.mu.Unlock()
 	if !done {
-		s.r.Logf("  [%s] -> no answer (buffered)", p.label)
+		logf(s.r, "  [%s] -> no answer (buffered)", p.label)
 		s.r.Count("probe_buffered_no_answer")
 		return
 	}
@@ -460,7 +461,7 @@ func (s *Sim) report(p *pending) {
 			s.r.Count("probe_handler_panic_recovered")
 		}
 	}
-	s.r.Logf("  [%s] -> %s", p.label, cleanErr(err))
+	logf(s.r, "  [%s] -> %s", p.label, cleanErr(err))
 }
 
 func (s *Sim) deliverOne(w []byte, label string) string {
@@ -779,4 +780,15 @@ func (s *Sim) genMessage(kind string) ([]byte, string) {
 
 func indexOf(hay, needle []byte) int {
 	return strings.Index(string(hay), string(needle))
+}
+
+var traceToStderr = os.Getenv("GOSSIPSIM_TRACE") != ""
+
+// logf appends to the (hashed) event trace; with GOSSIPSIM_TRACE set the line
+// is also printed immediately (debugging aid; output is not part of any result).
+func logf(r *simcore.Run, format string, args ...interface{}) {
+	r.Logf(format, args...)
+	if traceToStderr {
+		fmt.Fprintf(os.Stderr, "  | "+format+"\n", args...)
+	}
 }
